@@ -2,6 +2,12 @@
 """Regenerate the seeded-change table of DESIGN.md section 10 from /verif/seeded/*/meta.json."""
 import json, glob, os, re
 NOTES = {
+ "C22i-log-prepare-seeds-change-rule": "missed at first: every selected field of the change shards existed at START; absent-field shards (first/middle/last position, created later with None or a value) added",
+ "C23i-log-cycle-rename-loop-rotation": "missed at first: no I/O error injection; declared extension: one failing os.rename per run at every position (keep 2, 3)",
+ "C24i-client-tx-inherited-clienttls-splits": "missed at first: bufsize-2 runs only used 1-3 byte messages; bufsize 1 added so every 2- and 3-byte message is an exact multiple of .bs",
+ "C25i-socketudpnb-send-udp-sendto-error": "missed at first: console verbosity and payload encoding were fixed; {0, profuse} x {ASCII, non-UTF-8} added to the fault grid",
+ "C26i-server-removeix-function-not-touched": "missed at first: entries never held unsent data at removal; transmitIx / peerbreak events under EPIPE/EBADF added (fourth BFS family)",
+ "C36i-tcpserverstack-servicereceives-servicereceiveson": "missed at first: clients never closed right after sending; `sendclose` mode with lost-at-close oracle added",
  "C18h-store-add-store-addnode-dropped": "missed at first: no path of the alphabet repeated a segment name; chain `a / a.a / a.a.a` added",
  "C19h-share-change-share-create-refactored": "missed at first: no create() call named a new field twice; repeated-name create calls added (first value stays)",
  "C22h-log-update-per-loggee-guard": "missed at first: every loggee was stamped at creation; never-stamped loggee shards (two loggees, either position) added",
